@@ -135,6 +135,11 @@ Recompress(srcs, alives, sizeOf, bs) ==
 RECURSIVE Stack(_)
 Stack(srcs) == IF srcs = <<>> THEN <<>> ELSE Head(srcs) \o Stack(Tail(srcs))
 
+\* A filtered merge (merge_filtered_segments) gives every source an additional alive set: the documents of a
+\* source that reach the merged store are those alive under BOTH its own deletes and the caller's filter, and
+\* only a source whose effective alive set is everything may be stacked.
+EffectiveAlive(own, filter) == own \cap filter
+
 \* the merger's choice for one source
 Stacks(blocks, alive, sameCodec) ==
   alive = AllAlive(blocks) /\ Len(blocks) >= StackMinBlocks /\ sameCodec
